@@ -388,6 +388,17 @@ func VH_Migrate(a []int) {
 	set.Status.CurrentRevision = cur.Name
 	set.Status.UpdateRevision = rB.Name
 	set.Status.Replicas = int32(N)
+	// the built-in set may have seen a hash collision after these revisions were recorded:
+	// their hash labels were computed under an older collision count than the status carries
+	switch sym.Pick("collisionCount", 3) {
+	case 1:
+		cc := int32(0)
+		set.Status.CollisionCount = &cc
+	case 2:
+		cc := int32(1)
+		set.Status.CollisionCount = &cc
+		sym.Cover("the built-in set saw a hash collision")
+	}
 	// the garbage collector orphans the dependents of the deleted built-in set one
 	// object at a time: a revision may still carry the built-in owner reference
 	for _, r := range w.apiRevs {
